@@ -1,9 +1,15 @@
 use crate::common::{Args, Out};
 pub mod conn_enum;
+pub mod framing;
+pub mod headers;
 
 pub fn run(args: &Args, out: Out) {
     match args.driver.as_str() {
         "conn-enum" => conn_enum::run(args, out),
+        "headers-enum" => headers::run_enum(args, out),
+        "ascii-ctors" => headers::run_ctors(args, out),
+        "framing-gen" => framing::run_gen(args, out),
+        "pipeline-gen" => framing::run_pipeline(args, out),
         other => {
             eprintln!("unknown driver {other}");
             std::process::exit(2)
